@@ -8,7 +8,7 @@
      TABLE = ((#KEY #uncompressed) ...), KEY = codec byte followed by the compressed bytes, instantiates `decompress` (phase 2; trusted: cramjam)
      STRICT = 1: a bit-packed run must be present in full; 0: only the bytes of the values needed. *)
 From Coq Require Import NArith ZArith List String Ascii Bool.
-From Pq Require Import Base.Bytes Base.ListX Extract.Sx Thrift.Compact Codec.Hybrid Format.Phys Format.Meta Format.Page Format.File Format.Enc Impl.RPages Impl.RChunk Impl.WPagesFmt Impl.WLevels Impl.WChunk Impl.RSelf.
+From Pq Require Import Base.Bytes Base.ListX Extract.Sx Thrift.Compact Codec.Hybrid Format.Phys Format.Meta Format.Page Format.File Format.Enc Impl.RPages Impl.RChunk Impl.WPagesFmt Impl.WLevels Impl.WChunk Impl.RSelf Impl.RCat.
 From Pq Require Extract.Cmd_Thrift.
 Import ListNotations.
 Open Scope string_scope.
@@ -292,6 +292,25 @@ Definition h_fmt_rd_chunk_sm (a : list sx) : sx :=
   | _ => err "arity"
   end.
 
+(* the same chunk read AS A CATEGORICAL (Impl/RCat.v): labels and the codes array, -1 = missing
+     (fmt_rd_chunk_cat SELFMADE SKIPNULLS AK TYPE TLEN MAXDEF CODEC ROWS #chunk TABLE) -> (ok (VALUE ...) (CODE ...)) | (bad why) | (uns why) *)
+Definition h_fmt_rd_chunk_cat (a : list sx) : sx :=
+  match a with
+  | [sm; sk; ak; ty; tl; md; co; rows; ch; t] =>
+    match as_bool sm, as_bool sk, as_N ak, as_Z ty, as_N tl, as_N md, as_Z co, as_N rows, as_bytes ch, as_table t with
+    | Some sm, Some sk, Some ak, Some ty, Some tl, Some md, Some co, Some rows, Some ch, Some t =>
+      match ptype_of_id ty with
+      | Some pt =>
+        s_rs (fun r : option (list value) * list Z =>
+                [slist (fun v => s_cell (Some v)) (match fst r with Some l => l | None => [] end); slist SZ (snd r)])
+             (rd_chunk_cat (table_decompress t) ch sm sk ak {| cd_type := pt; cd_tlen := tl; cd_maxdef := md |} co rows None ch 0 [])
+      | None => err "args"
+      end
+    | _, _, _, _, _, _, _, _, _, _ => err "args"
+    end
+  | _ => err "arity"
+  end.
+
 Definition table : list (string * handler) :=
-  [("fmt_w_chunk", h_fmt_w_chunk); ("fmt_rd_chunk_sm", h_fmt_rd_chunk_sm); ("fmt_fp_page", h_fmt_fp_page); ("fmt_rd_chunk", h_fmt_rd_chunk); ("fmt_rd_data_page", h_fmt_rd_data_page); ("fmt_pages", h_fmt_pages); ("fmt_validate", h_fmt_validate); ("fmt_decode", h_fmt_decode);
+  [("fmt_rd_chunk_cat", h_fmt_rd_chunk_cat); ("fmt_w_chunk", h_fmt_w_chunk); ("fmt_rd_chunk_sm", h_fmt_rd_chunk_sm); ("fmt_fp_page", h_fmt_fp_page); ("fmt_rd_chunk", h_fmt_rd_chunk); ("fmt_rd_data_page", h_fmt_rd_data_page); ("fmt_pages", h_fmt_pages); ("fmt_validate", h_fmt_validate); ("fmt_decode", h_fmt_decode);
    ("fmt_payloads", h_fmt_payloads); ("fmt_encode", h_fmt_encode); ("fmt_table", h_fmt_table)].
